@@ -353,7 +353,7 @@ var c06Shapes = []string{
 var c06ShapesThorough = []string{
 	"vf:sss", "t:sss:sss:3", "t:iii::0", "t1:s:i:1", "t1,:ss:ii:1", "td,:si:is:3",
 	"vs;vf:ss;td:s:s:2;c", "c;c;vs", "vs;vs;vs;vs", "t:::3;td:i:s:1", "tdp::i:2;c", "vf:s;t1:::0;vs",
-	"td:::0;td:::0", "c;vs;c;t:::1", "t1:i:s:1;t1:s:i:1;vs",
+	"td:::0;td:::0", "c;vs;c;td:::1", "t1:i:s:1;t1:s:i:1;vs",
 }
 
 func c06Jobs(shapes []string, sizes, gaps, crlfs, nonascii []int) []jobSpec {
@@ -381,7 +381,7 @@ func init() {
 			"the parsed tree must have exactly the written names, strings, commands in order (byte-string equalities decided by the solver).",
 		Bounds: func(tier string) string {
 			if tier == "thorough" {
-				return fmt.Sprintf("%d shapes (up to 4 statements, 3 dependencies/outputs/arguments, 3 commands) x content holes of 1 byte x gap length 0..2 x LF/CRLF, and x non-ASCII suffix at gap 1; content holes of 2 bytes on the 19 one-statement shapes (all gaps) and 4 two-statement shapes (gap 1); holes of 3 bytes on the one-statement shapes at gap 1, LF", len(c06Shapes)+len(c06ShapesThorough))
+				return fmt.Sprintf("%d shapes (up to 4 statements, 3 dependencies/outputs/arguments, 3 commands) x content holes of 1 byte x gap length 0..2 x LF/CRLF, and x non-ASCII suffix at gap 1; content holes of 2 bytes on the 19 one-statement shapes (all gaps) and 4 two-statement shapes (gap 1); holes of 3 bytes on the 13 one-statement shapes with at most three content holes at gap 1, LF", len(c06Shapes)+len(c06ShapesThorough))
 			}
 			return fmt.Sprintf("%d shapes (up to 3 statements, 2 dependencies/outputs/arguments, 2 commands) x content holes of 1 byte (2 for a subset) x gap length 0..1 x LF/CRLF", len(c06Shapes))
 		},
@@ -411,7 +411,16 @@ func init() {
 				out := c06Jobs(all, []int{1}, []int{0, 1, 2}, []int{0, 1}, []int{0})
 				out = append(out, c06Jobs(single, []int{2}, []int{0, 1, 2}, []int{0, 1}, []int{0})...)
 				out = append(out, c06Jobs(multi, []int{2}, []int{1}, []int{0, 1}, []int{0})...)
-				out = append(out, c06Jobs(single, []int{3}, []int{1}, []int{0}, []int{0, 1})...)
+				// 3-byte holes on the one-statement shapes with at most three content holes
+				var small []string
+				for _, sh := range single {
+					switch sh {
+					case "vf:ss", "t:si::1", "t::ss:1", "t::si:1", "t,:s:ss:1", "t,:is::0":
+					default:
+						small = append(small, sh)
+					}
+				}
+				out = append(out, c06Jobs(small, []int{3}, []int{1}, []int{0}, []int{0, 1})...)
 				out = append(out, c06Jobs(all, []int{1}, []int{1}, []int{0, 1}, []int{1})...)
 				return out
 			}
